@@ -148,7 +148,8 @@ pub struct HistParams {
 
 pub fn gen_history(rng: &mut Rng, input: &str, hp: &HistParams) -> Vec<Op> {
     let b = boundaries(input);
-    let n = rng.range(5.min(hp.max_ops), hp.max_ops);
+    let max_ops = if cfg!(miri) { hp.max_ops.min(10) } else { hp.max_ops };
+    let n = rng.range(5.min(max_ops), max_ops);
     let mut ops = Vec::with_capacity(n);
     let mut have_peek = false;
     for _ in 0..n {
